@@ -51,7 +51,16 @@ func (io defaultFileIO) FindWithPrefixAndSuffix(prefix, suffix string) ([]string
 }
 
 func (io defaultFileIO) WriteFile(path string, data []byte) error {
-	return ioutil.WriteFile(path, data, 0600)
+	err := ioutil.WriteFile(path, data, 0600)
+	if os.IsNotExist(err) {
+		// The directory of the file may be gone, too, e.g. if a
+		// whole sub-directory of data files was deleted.
+		if mkdirErr := os.MkdirAll(filepath.Dir(path), 0777); mkdirErr != nil {
+			return err
+		}
+		return ioutil.WriteFile(path, data, 0600)
+	}
+	return err
 }
 
 type decoderInputFileInfo struct {
